@@ -118,7 +118,14 @@ func SetFamily() Family {
 func setScripts() [][][]string {
 	return [][][]string{
 		// three sets that intersect pairwise in two members and have no common member: whatever order the
-		// operand map is walked in, one half reaches LIMIT 1 and is returned as the answer
-		{{"sadd", "ta", "p", "q", "r", "s"}, {"sadd", "tb", "p", "q", "t", "u"}, {"sadd", "tc", "r", "s", "t", "u"}, {"sintercard", "ta", "tb", "tc", "limit", "1"}},
+		// operand map is walked in, one half reaches LIMIT 1 (it used to be returned as the answer; regression
+		// of the repair: the limit bounds the final intersection only); then with a member common to all three
+		{{"sadd", "ta", "p", "q", "r", "s"}, {"sadd", "tb", "p", "q", "t", "u"}, {"sadd", "tc", "r", "s", "t", "u"}, {"sintercard", "ta", "tb", "tc", "limit", "1"},
+			{"sadd", "ta", "z", "y"}, {"sadd", "tb", "z", "y"}, {"sadd", "tc", "z", "y"}, {"sintercard", "ta", "tb", "tc", "limit", "1"}, {"sintercard", "ta", "tb", "tc", "LIMIT", "5"},
+			{"sintercard", "ta", "tb", "tc", "tb", "limit", "2"}, {"sintercard", "ta", "tb", "tc"}},
+		// regression of the SADD reply on a new key: repeated elements are counted once (was: the number of arguments)
+		{{"sadd", "k1", "x", "x", "y"}, {"scard", "k1"}, {"sadd", "k1", "y", "z", "z"}, {"sadd", "k2", "n", "n"}},
+		// regression of SINTERCARD LIMIT over a single key (given once or twice): the limit caps the answer
+		{{"sadd", "k1", "a", "b", "c", "b"}, {"sintercard", "k1", "LIMIT", "2"}, {"sintercard", "k1", "k1", "limit", "1"}, {"sintercard", "k1", "limit", "5"}, {"sintercard", "k1", "limit", "0"}},
 	}
 }
